@@ -193,7 +193,9 @@ func c11ListJob() Job {
 						r.evals++
 						pages++
 						got = append(got, ipsOf(resp.Content)...)
-						if resp.Last || len(resp.Content) == 0 {
+						// (paging goes on past the page flagged as last, until a page is empty: a page number at or beyond the end
+						// must list nothing, or a client that pages until nothing comes back sees addresses twice)
+						if len(resp.Content) == 0 {
 							break
 						}
 					}
